@@ -34,11 +34,13 @@ def gen_term(rng, names):
     elif r < 0.75:
         core = rng.choice(names) + rng.choice(['*', '*', '/']) + rng.choice(names)
     elif r < 0.83:
-        core = rng.choice(['2', '3', '0.5', '4.', '10']) + '*' + rng.choice(names)
+        core = rng.choice(['2', '3', '0.5', '4.', '10', '1234567', '0.123046875']) + '*' + rng.choice(names)
     elif r < 0.90:
         core = rng.choice(names) + rng.choice(['*', '/']) + rng.choice(['2', '4', '0.5', '8'])
     else:
-        core = rng.choice(['1', '2', '2.5', '4', '0.25', '16.'])
+        # incl. numbers with more than six significant digits (all exactly representable, so sums stay exact)
+        core = rng.choice(['1', '2', '2.5', '4', '0.25', '16.', '1234567', '100000.5', '0.123046875', '8388607.5',
+                           '12345678.0', '0.0009765625'])
     form = rng.choice(['p', 'p', 'm', 'm', 'plus', 'b', 'mb', 'bm', 'mbm', 'pbp', 'pbm'])
     sign = 1.0
     if form == 'p':
